@@ -73,7 +73,7 @@ DecodeRobust(r) == r.out # "panic" /\ (r.out = "accept" => r.typeok) /\ ~r.both
 \* rel: [name, to1, shape \in {"absent","nodata","null","ident","list","badshape"},
 \*       listed: Seq(id), got: Seq(id) (what Get returns afterwards)]
 RelOK(rel, out) ==
-    CASE rel.shape = "badshape" -> out = "reject"
+    CASE rel.shape \in {"badshape", "badlinks", "badmeta"} -> out = "reject"   \* a member of the wrong JSON kind
       [] rel.shape \in {"absent", "nodata", "null"} -> out = "accept" => rel.got = <<>>
       [] rel.shape \in {"ident", "identbadtype", "identnotype"} -> out = "accept" => (rel.to1 /\ rel.got = rel.listed)
       [] rel.shape = "badtypenoid" -> out = "accept" => rel.got = <<>>
